@@ -11,5 +11,5 @@ cp /verif/known_findings.json "$T/verif/" 2>/dev/null
 (cd "$T/repo" && patch -p1 -s < "$patch") || { echo PATCH-FAILED; exit 3; }
 (cd "$T/repo" && go build ./...) || { echo NO-COMPILE; exit 4; }
 for p in "$@"; do
-  /verif/bin/emcheck -property "$p" -repo "$T/repo" -verif "$T/verif" 2>&1 | grep -v '^KNOWN-FINDING' | cut -c1-700
+  ${EMCHECK:-/verif/bin/emcheck} -property "$p" -repo "$T/repo" -verif "$T/verif" 2>&1 | grep -v '^KNOWN-FINDING' | cut -c1-700
 done
